@@ -10,9 +10,8 @@ ID = "C11"
 AREA = "c11"
 LEAN_PROPS = "Litep2pVerif.Props.C11"
 THEOREMS = ["handler_total", "bug_table", "grammar_alternation_partial", "grammar_alternation_witness",
-            "no_failure_while_open_partial", "open_answered_once_partial", "open_answered_once_witness",
-            "inbound_after_accept_partial", "inbound_after_accept_witness", "closed_on_disconnect",
-            "no_bug_reachable_partial", "no_bug_reachable_witness", "notif_only_while_open"]
+            "no_failure_while_open_partial", "closed_on_disconnect", "notif_only_while_open",
+            "no_bug_reachable_witness", "open_answered_once_witness", "inbound_after_accept_witness"]
 MANIFEST = {
     "text": "Lean 4 theorems about an executable model of the notification per-peer state machine (all states, every "
             "handler in the code's order of checks, debug_assert branches as explicit bug outputs) composed with its "
